@@ -15,6 +15,7 @@ import (
 	"github.com/golang/protobuf/proto"
 	"github.com/vx-labs/mqtt-protocol/packet"
 	"github.com/vx-labs/wasp/v4/wasp/api"
+	"github.com/vx-labs/wasp/v4/wasp/audit"
 	"github.com/vx-labs/wasp/v4/wasp/distributed"
 	"verifharness/internal/dstate"
 	"verifharness/internal/rec"
@@ -40,6 +41,9 @@ type scenario struct {
 	Ops  []op                `json:"ops"`
 	// AuditDown: the nodes' audit sink is unreachable for the whole scenario (every RecordEvent fails)
 	AuditDown bool `json:"auditdown"`
+	// KeepQueue: the nodes' transmit queues keep what they are handed (production behaviour: a broadcast is sent several
+	// times and can be invalidated by a later one while it waits); the op "held" delivers what a queue still holds
+	KeepQueue bool `json:"keepqueue"`
 }
 type entry struct {
 	K   string `json:"k"`
@@ -69,9 +73,12 @@ func (w *world) node(n int) *dstate.Node {
 		return x
 	}
 	var x *dstate.Node
-	if w.s.AuditDown {
+	switch {
+	case w.s.KeepQueue:
+		x = dstate.NewKeeping(uint64(n), audit.NoneRecorder())
+	case w.s.AuditDown:
 		x = dstate.NewWithAudit(uint64(n), dstate.DownAudit())
-	} else {
+	default:
 		x = dstate.New(uint64(n))
 	}
 	w.nodes[n] = x
@@ -198,7 +205,12 @@ func (w *world) local(o op) {
 			}
 		}
 	}()
-	raw := n.Drain()
+	var raw [][]byte
+	if n.Keeping() {
+		raw = n.New()
+	} else {
+		raw = n.Drain()
+	}
 	w.nmsg++
 	w.msgs[w.nmsg] = raw
 	w.r.Emit(rec.Ev{"op": "local", "n": o.N, "kind": o.Op, "k": o.K, "v": o.V, "o": o.O, "s": o.S, "ts": o.Ts,
@@ -317,6 +329,16 @@ func run(r *rec.Recorder, idx int, s scenario) {
 		case "deliver":
 			seenNodes[o.To] = true
 			w.deliver(o.To, o.Ms, o.Batch)
+			probeAll()
+		case "held":
+			// node o.To receives what node o.From's transmit queue still holds; the trace says "everything o.From ever
+			// queued" (o.Ms): that is what the queue owes its peers (C09), whatever was queued after it
+			seenNodes[o.To] = true
+			to := w.node(o.To)
+			for _, raw := range w.node(o.From).Held() {
+				to.State.Distributor().NotifyMsg(raw)
+			}
+			w.r.Emit(rec.Ev{"op": "deliver", "to": o.To, "ms": o.Ms, "batch": false})
 			probeAll()
 		case "push":
 			seenNodes[o.To] = true
